@@ -45,8 +45,14 @@ def gen_macro(rnd, name, earlier):
     return ("melem", rnd.choice(["div", "ul", "p", "td"]), [("class", name)] if rnd.random() < 0.6 else [], tal, kids, {"define-macro": name})
 
 
-def gen_fill(rnd, name):
+NAMES = []        # macro names of the case being generated (set by gen_case)
+
+
+def gen_fill(rnd, name, depth=0):
     kids = [("text", "filled " + name + " ")] + [_tal_kid(rnd) for _ in range(rnd.randint(0, 2))]
+    if NAMES and depth < 2 and rnd.random() < 0.3:
+        # a macro used inside a filler, with fillers of its own: they belong to the inner use, not to the enclosing one
+        kids.insert(rnd.randint(0, len(kids)), gen_use(rnd, "mac/" + rnd.choice(NAMES), SLOTS, depth=depth + 1))
     tal = {}
     r = rnd.random()
     if r < 0.15:
@@ -56,7 +62,7 @@ def gen_fill(rnd, name):
     return ("melem", rnd.choice(["b", "h3", "span", "li"]), [("id", "f-" + name)] if rnd.random() < 0.3 else [], tal, kids, {"fill-slot": name})
 
 
-def gen_use(rnd, expr, slotnames, resolved=None):
+def gen_use(rnd, expr, slotnames, resolved=None, depth=0):
     """`expr` is what the template says; `resolved` (default: the same) names the macro it denotes at that point"""
     kids = [("text", rnd.choice(["ignored text", "", " "]))]
     used = set()
@@ -65,7 +71,7 @@ def gen_use(rnd, expr, slotnames, resolved=None):
         if n in used:
             continue
         used.add(n)
-        f = gen_fill(rnd, n)
+        f = gen_fill(rnd, n, depth)
         if rnd.random() < 0.3:
             f = ("elem", "div", [], {}, [("text", "wrapper (not output) "), f])      # a filler below a plain wrapper still belongs to this use
         kids.append(f)
@@ -80,6 +86,7 @@ def gen_use(rnd, expr, slotnames, resolved=None):
 def gen_case(rnd):
     """-> (library ast, page ast)"""
     names = ["box", "lister", "plain", "outer"][:rnd.randint(1, 4)]
+    NAMES[:] = []          # (the library's own macros do not use macros inside fillers: `earlier` governs what a macro may use)
     lib, earlier = [], []
     for n in names:
         lib.append(gen_macro(rnd, n, earlier))
@@ -87,6 +94,7 @@ def gen_case(rnd):
         earlier.append(n)
     page = []
     own = []
+    NAMES[:] = names
     # a second library with the same macro names: which one `lib/<name>` denotes depends on the tal:define in force
     lib2 = []
     for n in names:
